@@ -172,6 +172,21 @@ Step(st, o) ==
          ELSE Same(SetVar(st, o.y, st.structs[x.r][o.s]), OKR)
     [] o.op = "getvar" ->        \* x  (a variable holding a scalar)
          IF x.t \in {"int", "str", "nil", "flt", "bool"} THEN Same(st, Res("val", x)) ELSE Same(st, OpenR)
+    [] o.op = "callget" ->       \* rdA(x) with rdA = func(v) { return v.A } : ONE member-expression site used on structs of different types
+         IF x.t # "struct" THEN Same(st, OpenR) ELSE Same(st, Res("val", st.structs[x.r].A))
+    [] o.op = "structnew2" ->    \* x = make(U): a second struct type with the same field names in another order
+         LET st0 == [st EXCEPT !.maps = Append(@, <<>>)]
+             st1 == [st0 EXCEPT !.structs = Append(@, [A |-> IntV(0), B |-> StrV(""), M |-> TMapV(Len(st0.maps))])] IN
+         Same(SetVar(st1, o.x, StructV(Len(st1.structs))), OKR)
+    [] o.op = "concat" ->        \* x = y + z : Go's append(y, z...) -- within y's capacity the elements land in y's storage, else in a new array
+         LET y == st.vars[o.y]  z == st.vars[o.k.s] IN
+         IF ~IsSlice(y) \/ ~IsSlice(z) \/ y.t = "tslice" THEN Same(st, OpenR)
+         ELSE LET n == y.len + z.len  zs == Elems(st, z) IN
+              IF n <= y.cap THEN Same(SetVar([st EXCEPT !.arrs[y.r] = [q \in 1..Len(@) |-> IF q > y.off + y.len /\ q <= y.off + n THEN zs[q - y.off - y.len] ELSE @[q]]],
+                                             o.x, V(y.t, 0, "", y.r, y.off, n, y.cap)), OKR)
+              ELSE IF o.cap < n THEN {}
+              ELSE LET st1 == [st EXCEPT !.arrs = Append(@, [q \in 1..o.cap |-> IF q <= y.len THEN Elem(st, y, q - 1) ELSE IF q <= n THEN zs[q - y.len] ELSE NilV])] IN
+                   Same(SetVar(st1, o.x, V(y.t, 0, "", Len(st1.arrs), 0, n, o.cap)), OKR)
     [] o.op = "strlit" -> {[st |-> NewStr(st, o.x, o.cs), res |-> OKR]}       \* x = "abc"  (cs = its characters)
     [] o.op = "tmapnew" -> LET st1 == [st EXCEPT !.maps = Append(@, <<>>)] IN Same(SetVar(st1, o.x, TMapV(Len(st1.maps))), OKR)    \* x = make(map[string]int64)
     [] o.op = "mapset" /\ x.t = "tmap" ->     \* typed map: key and value are converted as Go would, or the store fails unchanged
